@@ -75,7 +75,7 @@ func (s *Server) handlePropagatedRequest(m *nats.Msg) {
 func hasOperationBody(req *proto.PropagatedRequest) bool {
 	switch req.Op {
 	case proto.Op_CREATE_STREAM:
-		return req.CreateStreamOp != nil
+		return req.CreateStreamOp != nil && req.CreateStreamOp.Stream != nil
 	case proto.Op_SHRINK_ISR:
 		return req.ShrinkISROp != nil
 	case proto.Op_EXPAND_ISR:
